@@ -440,6 +440,10 @@ def execute(program, ctx, mode):
     def real_req(req):
         return tuple(None if x is None else spec_of(x) for x in req)
 
+    def real_req_none(req, salt):
+        """the same key as a caller may spell it: None stands for Interface at any position (PRNG-chosen per position)"""
+        return tuple(None if (x == 'Interface' and (h64(salt, j) & 1)) else spec_of(x) for j, x in enumerate(req))
+
     def ro_of(r):
         return c3(r, rb)
 
@@ -910,7 +914,7 @@ def execute(program, ctx, mode):
         for (q, p, n) in keys:
             if p is None:
                 continue
-            g = reg.registered(real_req(q), P[p], n)
+            g = reg.registered(real_req_none(q, len(live)), P[p], n)
             w_ = live.get((r, q, p, n))
             if g is not w_:
                 ctx.violation('C09', 'registered', 'C09|registered|%s' % ('stale' if w_ is None else ('missing' if g is None else 'wrong')),
@@ -921,7 +925,7 @@ def execute(program, ctx, mode):
         for (q, p) in list(skeys)[:6]:
             under = [c for a, b, c in ws if (a, b) == (q, p)]
             for v in vals:
-                g = reg.subscribed(real_req(q), prov(p), v)
+                g = reg.subscribed(real_req_none(q, len(subs)), prov(p), v)
                 w_ = v if any(v == u for u in under) else None
                 if g is not w_:
                     ctx.violation('C09', 'subscribed', 'C09|subscribed|%s' % ('stale' if w_ is None else 'missing'),
@@ -1113,10 +1117,10 @@ def execute(program, ctx, mode):
                     if eqs:
                         ctx.probe('unregister-equal-but-distinct')
                 if how == 1 and (op['sel'] >> 3) % 2:
-                    mutate(('reg', r, real_req(kk[1]), P[kk[2]], kk[3], None))      # register(None) == unregister
+                    mutate(('reg', r, real_req_none(kk[1], k), P[kk[2]], kk[3], None))      # register(None) == unregister
                     ctx.probe('register-None')
                 else:
-                    mutate(('unreg', r, real_req(kk[1]), P[kk[2]], kk[3], v))
+                    mutate(('unreg', r, real_req_none(kk[1], k), P[kk[2]], kk[3], v))
                 if v is None or v is cur:
                     del live[kk]
                     if not any(k2[0] == r and len(k2[1]) == len(kk[1]) for k2 in live):
@@ -1171,7 +1175,7 @@ def execute(program, ctx, mode):
                         ctx.probe('unsubscribe-equal-but-distinct')
                 else:
                     v = vals[(s[3].n + 1) % len(vals)]
-                mutate(('unsub', r, real_req(s[1]), prov(s[2]), v))
+                mutate(('unsub', r, real_req_none(s[1], k), prov(s[2]), v))
                 before = len(subs)
                 subs[:] = [t for t in subs if not (t[0] == r and t[1] == s[1] and t[2] == s[2] and (v is None or t[3] == v))]
                 if before - len(subs) > 1:
